@@ -94,8 +94,9 @@ theorem restore_persist_rel {s s' : St} (occ : List (List Int)) (weightOf : Nat 
   obtain ⟨hW, hT, hL, hF, hWt⟩ := hslots
   have hpl : (persist s).locked = [] := by simp [persist, hlk]
   have hplo : (persist s).lockedOrd = [] := by simp [persist, hlo]
+  have hps : (persist s).spawnedRec = none := by simp [persist, spawnedKey, hlk, hsp]
   unfold SameScalars blank at hsc
-  rw [hpl, hplo] at hsc
+  rw [hpl, hplo, hps] at hsc
   cases s'
   simp only [St.mk.injEq, persist] at hsc
   obtain ⟨h1, h2, h3, h4, h5, h6, h7, h8, h9, h10, h11, h12, h13, h14, h15, h16, h17, h18, h19, h20, h21, h22, h23, h24, h25⟩ := hsc
@@ -105,6 +106,23 @@ theorem restore_persist_rel {s s' : St} (occ : List (List Int)) (weightOf : Nat 
           fun f => f.elim, fun f => f.elim, ⟨[], by simp, rfl⟩⟩, rfl, rfl, rfl, rfl⟩
   simp [hsp]
 
+
+/-- **the spawn counter round-trips through the restart file, for EVERY state**: `write_toml` stores `current.spawned`
+    exactly when it is not `cstep + len(locked)` (after a restart that could not re-issue every recorded job), and
+    `set_rgen` uses the key when present, the formula otherwise. -/
+theorem restore_spawned {s s' : St} {n workers tsteps : Nat} {occ : List (List Int)} {ensEng : List (List Nat)}
+    {weightOf : Nat → List Rat} (h : restore (persist s) n workers tsteps occ ensEng weightOf = .ok s') :
+    s'.spawned = s.spawned := by
+  unfold restore at h
+  have hsc := loadPaths_scalars h
+  unfold SameScalars at hsc
+  have := congrArg St.spawned hsc
+  simp only [blank] at this
+  rw [this]
+  simp only [persist, spawnedKey, List.length_map]
+  split
+  · rename_i he; simp [he]
+  · simp
 
 theorem lookup_none_of_not_key (l : AL) (q : Nat) (h : q ∉ l.map (·.1)) : l.lookup q = none := by
   induction l with
